@@ -360,6 +360,52 @@ for (cyc, f, dt) in cfgs:
     if o is not pre or not np.allclose(pre[0, n + 3:], 1.0):
         chk.violation("tf:prealloc", "preallocated timetraces are not accumulated in place", {"dt": dt})
 
+# sweep of the toneburst configurations (sampling step, centre frequency, cycle count, padding options): every valid
+# make_toneburst2 output must be accepted and its echoes placed; the SAME delays array is handed over twice (a second
+# window / a second set of transfer functions in the caller): it must come back untouched and give the same answer
+import itertools
+sweep = [(cyc, f, dt, nb, na) for dt in (10e-9, 20e-9, 25e-9, 40e-9, 50e-9, 100e-9) for f in (1e6, 2e6, 2.5e6, 5e6, 10e6)
+         for cyc in (2, 3, 5, 7) for nb in (0, 1, 2) for na in (0, 1, 2) if f * dt <= 0.26]
+if Q:
+    sweep = [sweep[int(i)] for i in rng.choice(len(sweep), size=160, replace=False)]
+for (cyc, f, dt, nb, na) in sweep:
+    fast = bool(rng.integers(0, 2))
+    tt, tb, t0 = model.make_toneburst2(cyc, f, dt, num_before=nb, num_after=na, use_fast_len=fast)
+    n = len(tt)
+    length = 2 * n + 40
+    start_k = int(rng.choice([0, 0, 7, -5, 500]))
+    start = start_k * dt
+    ks = np.array(sorted({t0, t0 + 3, t0 + length - n}))          # first, an interior and the last admissible sample
+    delays = (ks + start_k) * dt
+    delays_arg = delays[np.newaxis, :].copy()
+    H = (rng.standard_normal(len(ks)) + 1j * rng.standard_normal(len(ks)))[np.newaxis, :, np.newaxis]
+    freq, tb_f = np.fft.rfftfreq(n, dt), np.fft.rfft(tb)
+    repl = {"num_cycles": cyc, "centre_freq": f, "dt": dt, "num_before": nb, "num_after": na, "use_fast_len": fast,
+            "t0_idx": int(t0), "toneburst_len": n, "window_start": start, "window_len": length, "delays": delays}
+    evaluations += 1
+    chk.count(toneburst_sweep=f"dt={dt * 1e9:.0f}ns")
+    try:
+        out1 = np.array(model.transfer_func_to_timetraces(H, delays_arg, Time(start, dt, length), tt, freq, tb_f, t0))
+        untouched = np.array_equal(delays_arg, delays[np.newaxis, :])
+        out2 = np.array(model.transfer_func_to_timetraces(H, delays_arg, Time(start, dt, length), tt, freq, tb_f, t0))
+    except Exception as e:      # noqa: BLE001
+        chk.violation("tf:sweep-raises", f"transfer_func_to_timetraces rejects a valid make_toneburst2 configuration ({type(e).__name__}: {e})",
+                      dict(repl, exception=repr(e)))
+        continue
+    if not untouched or not np.array_equal(delays_arg, delays[np.newaxis, :]):
+        chk.violation("tf:sweep-inputs", "transfer_func_to_timetraces modified the delays array it was given", dict(repl, delays_after=delays_arg))
+        continue
+    analytic = arim.signal.rfft_to_hilbert(tb_f, n)
+    want = np.zeros((len(ks), length), complex)          # one timetrace per delay
+    for j, k in enumerate(ks):
+        want[j, k - t0: k - t0 + n] = H[0, j, 0] * analytic
+    sc_ = float(np.max(np.abs(H)))
+    if out1.shape != want.shape or not np.allclose(out1, want, rtol=0, atol=1e-9 * sc_) or not np.array_equal(out1, out2):
+        chk.violation("tf:sweep-placement", "echoes on sample-aligned delays are not the scaled analytic toneburst placed at those samples "
+                      "(or a second call with the same arguments differs)",
+                      dict(repl, max_abs_err=float(np.max(np.abs(out1 - want))) if out1.shape == want.shape else None,
+                           second_call_equal=bool(np.array_equal(out1, out2))))
+
 # model side: delay split on the exact rational value of the float inputs (NumQ)
 lits, keep = [], []
 for i, (rel, dt, q_obs, info) in enumerate(ds_cases):
